@@ -27,6 +27,7 @@ func checkC04(c *Ctx) {
 	c.checkGetOptsAgreement()
 	c.checkClipExact()
 	c.checkNormalizeHalfOpen()
+	c.checkAdapterBoundsAgree()
 }
 
 func (c *Ctx) checkHistoryReads() {
